@@ -276,7 +276,8 @@ pub fn entry_summary(subject: K, kind: K, e: &[u8], subn: u32, aux: u64) -> Resu
                     return Err(format!("resource header at {} runs past the controller", p));
                 }
                 let l = le16(e, p + 2).unwrap() as usize;
-                if l < 20 || p + l > e.len() {
+                // a resource header is 8 bytes (type, reserved, length, flags, reserved, id type)
+                if l < 8 || p + l > e.len() {
                     return Err(format!("resource #{} at {} declares length {} (controller has {} bytes left)", seen, p, l, e.len() - p));
                 }
                 p += l;
